@@ -154,7 +154,7 @@ func runEngineA(t *testing.T, p *Profile, runSeed uint64, rf *ReplayFile) *RunOu
 		}
 		// two violations are "the same" here when property, class and the cause-like features agree (features that
 		// describe the incidental shape of the history, such as the session's origin, are ignored)
-		causeLike := []string{"cause", "why", "nolocal", "first", "which", "how", "code", "type", "was", "path", "what", "state", "left_open", "request", "over_max_qos", "sign", "kind", "explained", "delayed", "held", "rm_limited", "pubrel", "write_fault", "resumed", "handler", "key_collision"}
+		causeLike := []string{"cause", "why", "nolocal", "first", "which", "how", "code", "type", "was", "path", "what", "state", "left_open", "request", "over_max_qos", "sign", "kind", "explained", "delayed", "held", "rm_limited", "pubrel", "write_fault", "resumed", "handler", "key_collision", "order", "client_used_same_id"}
 		key := func(v Violation) string {
 			k := v.Property + "/" + v.Class
 			if p.Name == "C27" && v.Class == "panic" {
